@@ -227,6 +227,9 @@ def jobs(tier, seed):
         ot = with_opref(tree)
         if ot is not None:
             out.append({"id": f"opref/{pid}", "tree": ot})
+        if pid.startswith(("shadow/block/", "shadow/macro/", "isolation/", "export-vs-local/")):
+            # printing the symbol table (Program(dump_symbols=True) / --dump-symbols) must not change anything
+            out.append({"id": f"dump-symbols/{pid}", "tree": tree, "dump": True})
         tw = rename_innermost(tree)
         if tw is not None:
             out.append({"id": f"rename-twin/{pid}", "tree": tree, "twin": tw})
@@ -274,7 +277,7 @@ def run(spec, cx):
         syms[h] = cx.int(h, 0, 0xFFFFFF)
     outs = []
     for t in trees:
-        r = assemble(source(t), dict(syms))
+        r = assemble(source(t), dict(syms), dump_symbols=bool(spec.get("dump")))
         if r[0] == "ok":
             outs.append(("ok", [(a, b) for a, b in r[1]]))
         else:
